@@ -3,8 +3,8 @@
    version through the switch tables goextract read from ParseVersion, so the
    statements below are about the constants, tables and regular expression
    that are in version.go on this run. *)
-From Apko Require Import Base.Prelude Base.Regex Spec.VersionSpec Model.Version Model.VersionFilter Model.VersionFilterPins Model.SonameFixed Proofs.VersionProofs Proofs.ConstraintProofs
-  Proofs.VersionStringProofs Proofs.VersionFilterProofs Proofs.VersionFilterPinsProofs Proofs.VersionPrefixProofs Proofs.SonameProofs Proofs.SonameFixedProofs
+From Apko Require Import Base.Prelude Base.Regex Spec.VersionSpec Model.Version Model.VersionFilter Model.VersionFilterPins Model.SonameShapes Proofs.VersionProofs Proofs.ConstraintProofs
+  Proofs.VersionStringProofs Proofs.VersionFilterProofs Proofs.VersionFilterPinsProofs Proofs.VersionPrefixProofs Proofs.SonameProofs Proofs.SonameOldProofs
   Generated.Regexes Generated.VersionConsts Generated.C03Version Generated.C03Ladders.
 Open Scope Z_scope.
 
@@ -264,19 +264,7 @@ Example c03_filter_pins_example :
   List.map fc_ver (filter (version_passes (resolve_constraint "a>=2")) cands) = ["2.0"; "3.0"; "2.5"]%string.
 Proof. repeat split; vm_compute; reflexivity. Qed.
 
-(* shared-library names (finding C03-F2): the 0.V rescaling of so: versions without a release suffix is found by cutting at the
-   first "=", so a provide so:libx.so.1=6 is compared as 0.6 while the constraint so:libx.so.1>1 keeps 1: 6 > 1 is answered
-   false.  With an operator that contains "=" both sides move and the order is kept.  This is the concrete witness; the
-   statements for ALL names and versions follow (c03_soname_scale, c03_soname_scale_refuted_for_all). *)
-Theorem c03_soname_scale_refuted :
-  exists a, parse_version (c_version (resolve_constraint "so:libx.so.1=6")) = Some a /\
-            satisfied_by (resolve_constraint "so:libx.so.1>1") a = Some false /\
-            satisfied_by (resolve_constraint "so:libx.so.1>=1") a = Some true /\
-            satisfied_by (resolve_constraint "so:libx.so.1<=1") a = Some false.
-Proof. eexists. repeat split; vm_compute; reflexivity. Qed.
-Print Assumptions c03_soname_scale_refuted.
-
-(* ---- the so: rescaling for ALL names and version strings ---------------------------------------------------------------- *)
+(* ---- shared-library names: the so: rescaling for ALL names and version strings (today's code, since fix C03-F2 = commit 0f275a6) ---- *)
 
 (* "0." in front of an accepted version string is accepted and denotes the same tuple with one more leading component 0; a
    leading 0 on BOTH sides changes neither the order (every later field follows unchanged) nor the ~ prefix rule *)
@@ -295,107 +283,107 @@ Theorem c03_release_suffix : forall l, Forall byte l ->
 Proof. exact ends_release_iff. Qed.
 Print Assumptions c03_release_suffix.
 
+(* HOW the so: block finds the start of the version, as goextract read it from ResolvePackageNameVersionPin on this run: the
+   scan over the run of operator characters (not strings.Cut at "="); the model's rewrite, which interprets that shape, is the
+   readable hand form.  A revert of the fix changes the first conjunct. *)
+Theorem c03_soname_shape :
+  so_rewrite_shape = SoOperatorRun "=><~" "0." /\ (forall s, so_rewrite s = so_rewrite_run s).
+Proof. exact (conj so_shape_today so_rewrite_today). Qed.
+Print Assumptions c03_soname_shape.
+
 (* what "so:" ++ name ++ operator ++ version resolves to, for every row of the operator switch, every name made of name
    characters and every accepted version string (c03_constraint_split excluded so: names): the parts survive, and the version
-   is moved to 0.V exactly when the operator CONTAINS "=" and V has no release suffix *)
+   is moved to 0.V exactly when V has no release suffix - whatever the operator *)
 Theorem c03_soname_resolve : forall row nm v pv,
   In row matcher_table -> namechars nm -> parse_version v = Some pv ->
   resolve_constraint ("so:" ++ nm ++ fst row ++ v)%string =
-    {| c_name := ("so:" ++ nm)%string; c_version := so_version (fst row) v; c_dep := snd row; c_pin := ""%string |}.
+    {| c_name := ("so:" ++ nm)%string; c_version := so_version v; c_dep := snd row; c_pin := ""%string |}.
 Proof. exact resolve_so. Qed.
 Print Assumptions c03_soname_resolve.
 
-(* the verdict of a so: constraint on the version of a so: provide (both through ResolvePackageNameVersionPin), in general —
-   mixed kinds included: the provide is on the 0.W scale unless W has a release suffix; the constraint is on the 0.V scale
-   unless V has a release suffix OR the operator has no "=" *)
-Theorem c03_soname_verdict : forall row nm v w pv pw,
+(* the verdict of a so: constraint on the version of a so: provide (both through ResolvePackageNameVersionPin), for all six
+   operators: both sides are scaled by the same rule (0.X unless X has a release suffix) - mixed kinds included -, and on
+   versions of the same kind the rescaling cancels: the verdict is the spec's operator on the two versions *)
+Theorem c03_soname_scale : forall row nm v w pv pw,
   In row matcher_table -> namechars nm -> parse_version v = Some pv -> parse_version w = Some pw ->
   exists a va vr, abs pw = Some va /\ abs pv = Some vr /\
     parse_version (c_version (resolve_constraint ("so:" ++ nm ++ "=" ++ w)%string)) = Some a /\
     satisfied_by (resolve_constraint ("so:" ++ nm ++ fst row ++ v)%string) a =
-      Some (spec_sat (vop_of_string (fst row))
-              (scaled (negb (ends_release_s w)) va)
-              (scaled (has_eq (fst row) && negb (ends_release_s v)) vr)).
+      Some (spec_sat (vop_of_string (fst row)) (scaled (negb (ends_release_s w)) va) (scaled (negb (ends_release_s v)) vr)) /\
+    (ends_release_s v = ends_release_s w ->
+     satisfied_by (resolve_constraint ("so:" ++ nm ++ fst row ++ v)%string) a = Some (spec_sat (vop_of_string (fst row)) va vr)).
 Proof. exact so_verdict. Qed.
-Print Assumptions c03_soname_verdict.
-
-(* =, >=, <= on versions of the same kind (both with, or both without, a release suffix): the rescaling cancels and the
-   verdict is the spec's operator on the two versions *)
-Theorem c03_soname_scale : forall row nm v w pv pw,
-  In row matcher_table -> has_eq (fst row) = true -> namechars nm ->
-  parse_version v = Some pv -> parse_version w = Some pw ->
-  ends_release_s v = ends_release_s w ->
-  exists a va vr, abs pw = Some va /\ abs pv = Some vr /\
-    parse_version (c_version (resolve_constraint ("so:" ++ nm ++ "=" ++ w)%string)) = Some a /\
-    satisfied_by (resolve_constraint ("so:" ++ nm ++ fst row ++ v)%string) a =
-      Some (spec_sat (vop_of_string (fst row)) va vr).
-Proof. exact so_verdict_with_eq. Qed.
 Print Assumptions c03_soname_scale.
 
-(* >, <, ~ (finding C03-F2, for all inputs): the constraint is not rescaled, so a provide without release suffix is judged as
-   0.W against V; when V's first component is at least 1 the two versions do not matter at all - ">" is never satisfied,
-   "<" always, "~" never *)
-Theorem c03_soname_scale_refuted_for_all : forall row nm v w pv pw,
+Example c03_soname_example :
+  In (">="%string, dep_versionGreaterEqual) matcher_table /\ In (">"%string, dep_versionGreater) matcher_table /\
+  In ("~"%string, dep_versionTilde) matcher_table /\
+  namechars "libc.musl-x86_64.so.1" /\
+  (exists pv, parse_version "1.2" = Some pv) /\ (exists pw, parse_version "1.10" = Some pw) /\
+  ends_release_s "1.2" = false /\ ends_release_s "1.10" = false /\ ends_release_s "1.2-r3" = true /\
+  so_version "1.2" = "0.1.2"%string /\ so_version "1.2-r3" = "1.2-r3"%string /\
+  (exists a, parse_version (c_version (resolve_constraint "so:libx.so.1=6")) = Some a /\
+             satisfied_by (resolve_constraint "so:libx.so.1>1") a = Some true /\
+             satisfied_by (resolve_constraint "so:libx.so.1<1") a = Some false /\
+             satisfied_by (resolve_constraint "so:libx.so.1~6") a = Some true /\
+             satisfied_by (resolve_constraint "so:libx.so.1>=1") a = Some true /\
+             satisfied_by (resolve_constraint "so:libx.so.1<=1") a = Some false).
+Proof. repeat split; try (vm_compute; auto 10; fail); try exact so_fixed_witness; eexists; vm_compute; reflexivity. Qed.
+
+(* ---- HYPOTHETICAL OLD SHAPE (the code before fix C03-F2: strings.Cut at the first "="; Model/SonameShapes.v so_rewrite_old /
+   resolve_constraint_old = the model's interpretation of the shape SoCutAt "=" "=0.").  NOT statements about today's code:
+   they keep the repaired defect stated, and they are what the model becomes if the fix is reverted. ------------------------- *)
+
+(* the concrete witness of the former finding C03-F2 (the same strings are regression replays in the soname corpus): the provide
+   so:libx.so.1=6 was compared as 0.6 while the constraint so:libx.so.1>1 kept 1, so 6 > 1 was answered false *)
+Theorem c03_soname_old_shape_refuted :
+  exists a, parse_version (c_version (resolve_constraint_old "so:libx.so.1=6")) = Some a /\
+            satisfied_by (resolve_constraint_old "so:libx.so.1>1") a = Some false /\
+            satisfied_by (resolve_constraint_old "so:libx.so.1>=1") a = Some true /\
+            satisfied_by (resolve_constraint_old "so:libx.so.1<=1") a = Some false.
+Proof. exact so_old_witness. Qed.
+Print Assumptions c03_soname_old_shape_refuted.
+
+(* for all inputs: under the old shape a constraint with >, < or ~ was not rescaled, so a provide without release suffix was
+   judged as 0.W against V; when V's first component is at least 1 the two versions did not matter at all - ">" never
+   satisfied, "<" always, "~" never *)
+Theorem c03_soname_old_shape_refuted_for_all : forall row nm v w pv pw,
   In row matcher_table -> has_eq (fst row) = false -> namechars nm ->
   parse_version v = Some pv -> parse_version w = Some pw -> ends_release_s w = false ->
   (exists a va vr, abs pw = Some va /\ abs pv = Some vr /\
-     parse_version (c_version (resolve_constraint ("so:" ++ nm ++ "=" ++ w)%string)) = Some a /\
-     satisfied_by (resolve_constraint ("so:" ++ nm ++ fst row ++ v)%string) a =
+     parse_version (c_version (resolve_constraint_old ("so:" ++ nm ++ "=" ++ w)%string)) = Some a /\
+     satisfied_by (resolve_constraint_old ("so:" ++ nm ++ fst row ++ v)%string) a =
        Some (spec_sat (vop_of_string (fst row)) (cons0 va) vr)) /\
   (0 < hd 0 (m_nums pv) ->
-   exists a, parse_version (c_version (resolve_constraint ("so:" ++ nm ++ "=" ++ w)%string)) = Some a /\
-     satisfied_by (resolve_constraint ("so:" ++ nm ++ fst row ++ v)%string) a =
+   exists a, parse_version (c_version (resolve_constraint_old ("so:" ++ nm ++ "=" ++ w)%string)) = Some a /\
+     satisfied_by (resolve_constraint_old ("so:" ++ nm ++ fst row ++ v)%string) a =
        Some (match vop_of_string (fst row) with OpLt => true | _ => false end)).
 Proof.
   intros row nm v w pv pw Hin He Hn Hv Hw Hk.
-  exact (conj (so_verdict_without_eq row nm v w pv pw Hin He Hn Hv Hw Hk)
-              (so_verdict_without_eq_constant row nm v w pv pw Hin He Hn Hv Hw Hk)).
+  exact (conj (so_verdict_old_without_eq row nm v w pv pw Hin He Hn Hv Hw Hk)
+              (so_verdict_old_without_eq_constant row nm v w pv pw Hin He Hn Hv Hw Hk)).
 Qed.
-Print Assumptions c03_soname_scale_refuted_for_all.
+Print Assumptions c03_soname_old_shape_refuted_for_all.
 
-Example c03_soname_example :
-  In (">="%string, dep_versionGreaterEqual) matcher_table /\ has_eq ">=" = true /\
-  In (">"%string, dep_versionGreater) matcher_table /\ has_eq ">" = false /\
-  namechars "libc.musl-x86_64.so.1" /\
-  (exists pv, parse_version "1.2" = Some pv /\ 0 < hd 0 (m_nums pv)) /\ (exists pw, parse_version "1.10" = Some pw) /\
-  ends_release_s "1.2" = false /\ ends_release_s "1.10" = false /\ ends_release_s "1.2-r3" = true /\
-  so_version ">=" "1.2" = "0.1.2"%string /\ so_version ">" "1.2" = "1.2"%string /\ so_version "=" "1.2-r3" = "1.2-r3"%string.
-Proof. repeat split; try (vm_compute; auto 10; fail); eexists; split; vm_compute; reflexivity. Qed.
-
-(* ---- the repair of C03-F2 evaluated on the model (fixes/C03-F2.patch, Model/SonameFixed.v; NOT applied) ------------------- *)
-
-(* the repaired rewrite ("0." behind the whole operator run) returns the same bytes as today's on every string that is not a
-   so: name, on every so: string without an operator character, and on every so: string whose operator run ends in its only
-   "=" (=, >=, <=) in front of something that is not an operator character *)
-Theorem c03_soname_repair_conservative :
-  (forall s, strip_prefix so_bytes s = None -> so_rewrite_fixed s = so_rewrite s) /\
-  (forall rest, no_op (so_bytes ++ rest) = true -> so_rewrite_fixed (so_bytes ++ rest) = so_rewrite (so_bytes ++ rest)) /\
+(* what the fix changed and what it did not: today's rewrite returns the same bytes as the old shape on every string that is
+   not a so: name, on every so: string without an operator character, and on every so: string whose operator run ends in its
+   only "=" (=, >=, <=) in front of something that is not an operator character *)
+Theorem c03_soname_fix_conservative :
+  (forall s, strip_prefix so_bytes s = None -> so_rewrite s = so_rewrite_old s) /\
+  (forall rest, no_op (so_bytes ++ rest) = true -> so_rewrite (so_bytes ++ rest) = so_rewrite_old (so_bytes ++ rest)) /\
   (forall pre o v, no_op (so_bytes ++ pre) = true -> forallb is_opchar o = true -> no_eq o = true -> head_no_op v ->
-     so_rewrite_fixed (so_bytes ++ pre ++ (o ++ [61%N]) ++ v) = so_rewrite (so_bytes ++ pre ++ (o ++ [61%N]) ++ v)).
-Proof. exact so_rewrite_fixed_conservative. Qed.
-Print Assumptions c03_soname_repair_conservative.
+     so_rewrite (so_bytes ++ pre ++ (o ++ [61%N]) ++ v) = so_rewrite_old (so_bytes ++ pre ++ (o ++ [61%N]) ++ v)).
+Proof. exact so_rewrite_conservative. Qed.
+Print Assumptions c03_soname_fix_conservative.
 
-(* and with it every one of the six operators puts both sides on one scale: same kind => the order of the versions *)
-Theorem c03_soname_repair_follows_order : forall row nm v w pv pw,
-  In row matcher_table -> namechars nm -> parse_version v = Some pv -> parse_version w = Some pw ->
-  exists a va vr, abs pw = Some va /\ abs pv = Some vr /\
-    parse_version (c_version (resolve_constraint_fixed ("so:" ++ nm ++ "=" ++ w)%string)) = Some a /\
-    satisfied_by (resolve_constraint_fixed ("so:" ++ nm ++ fst row ++ v)%string) a =
-      Some (spec_sat (vop_of_string (fst row)) (scaled (negb (ends_release_s w)) va) (scaled (negb (ends_release_s v)) vr)) /\
-    (ends_release_s v = ends_release_s w ->
-     satisfied_by (resolve_constraint_fixed ("so:" ++ nm ++ fst row ++ v)%string) a = Some (spec_sat (vop_of_string (fst row)) va vr)).
-Proof. exact so_verdict_fixed. Qed.
-Print Assumptions c03_soname_repair_follows_order.
-
-Example c03_soname_repair_example :
-  exists a, parse_version (c_version (resolve_constraint_fixed "so:libx.so.1=6")) = Some a /\
-            satisfied_by (resolve_constraint_fixed "so:libx.so.1>1") a = Some true /\
-            satisfied_by (resolve_constraint_fixed "so:libx.so.1<1") a = Some false /\
-            satisfied_by (resolve_constraint_fixed "so:libx.so.1>=1") a = Some true /\
-            resolve_constraint_fixed "so:libx.so.1>=1" = resolve_constraint "so:libx.so.1>=1" /\
-            resolve_constraint_fixed "so:libx.so.1=6" = resolve_constraint "so:libx.so.1=6" /\
-            resolve_constraint_fixed "so:libx.so.1" = resolve_constraint "so:libx.so.1".
-Proof. exact so_fixed_witness. Qed.
+Example c03_soname_old_shape_example :
+  In (">"%string, dep_versionGreater) matcher_table /\ has_eq ">" = false /\ has_eq ">=" = true /\
+  (exists pv, parse_version "1.2" = Some pv /\ 0 < hd 0 (m_nums pv)) /\
+  so_version_old ">=" "1.2" = "0.1.2"%string /\ so_version_old ">" "1.2" = "1.2"%string /\
+  resolve_constraint_old "so:libx.so.1>=1" = resolve_constraint "so:libx.so.1>=1" /\
+  resolve_constraint_old "so:libx.so.1=6" = resolve_constraint "so:libx.so.1=6" /\
+  resolve_constraint_old "so:libx.so.1" = resolve_constraint "so:libx.so.1".
+Proof. repeat split; try (vm_compute; auto 10; fail); eexists; split; vm_compute; reflexivity. Qed.
 
 (* non-vacuity: real version strings parse, decode and compare *)
 Example c03_example :
